@@ -84,32 +84,32 @@ mod mac_capture__par;
 mod mac_nested__exppar;
 mod mac_local_names__pari;
 mod mac_disj__ser;
-mod stress_rel__ser;
-mod rnd_core_02__pari;
-mod rnd_core_05__par;
-mod rnd_core_08__ser;
-mod rnd_core_10__pari;
-mod rnd_core_13__par;
-mod rnd_core_16__ser;
-mod rnd_core_18__pari;
-mod rnd_core_21__par;
-mod rnd_core_24__ser;
-mod rnd_core_26__pari;
-mod rnd_core_29__par;
-mod rnd_agg_02__ser;
-mod rnd_agg_04__pari;
-mod rnd_agg_07__par;
-mod rnd_agg_10__ser;
-mod rnd_agg_12__pari;
-mod rnd_agg_15__par;
-mod rnd_prec_02__par;
-mod rnd_prec_03__topar;
-mod rnd_prec_05__pari;
-mod rnd_prec_07__ser;
-mod rnd_prec_08__to;
-mod rnd_prea_03__ser;
-mod rnd_prea_05__pari;
-mod rnd_prea_08__par;
+mod stress_set__ser;
+mod rnd_core_01__pari;
+mod rnd_core_04__par;
+mod rnd_core_07__ser;
+mod rnd_core_09__pari;
+mod rnd_core_12__par;
+mod rnd_core_15__ser;
+mod rnd_core_17__pari;
+mod rnd_core_20__par;
+mod rnd_core_23__ser;
+mod rnd_core_25__pari;
+mod rnd_core_28__par;
+mod rnd_agg_01__ser;
+mod rnd_agg_03__pari;
+mod rnd_agg_06__par;
+mod rnd_agg_09__ser;
+mod rnd_agg_11__pari;
+mod rnd_agg_14__par;
+mod rnd_prec_01__to;
+mod rnd_prec_03__par;
+mod rnd_prec_04__topar;
+mod rnd_prec_06__pari;
+mod rnd_prec_08__ser;
+mod rnd_prea_02__ser;
+mod rnd_prea_04__pari;
+mod rnd_prea_07__par;
 
 fn lookup(name: &str) -> fn() -> Box<dyn Driven> {
    match name {
@@ -189,32 +189,32 @@ fn lookup(name: &str) -> fn() -> Box<dyn Driven> {
       "mac_nested__exppar" => mac_nested__exppar::make,
       "mac_local_names__pari" => mac_local_names__pari::make,
       "mac_disj__ser" => mac_disj__ser::make,
-      "stress_rel__ser" => stress_rel__ser::make,
-      "rnd_core_02__pari" => rnd_core_02__pari::make,
-      "rnd_core_05__par" => rnd_core_05__par::make,
-      "rnd_core_08__ser" => rnd_core_08__ser::make,
-      "rnd_core_10__pari" => rnd_core_10__pari::make,
-      "rnd_core_13__par" => rnd_core_13__par::make,
-      "rnd_core_16__ser" => rnd_core_16__ser::make,
-      "rnd_core_18__pari" => rnd_core_18__pari::make,
-      "rnd_core_21__par" => rnd_core_21__par::make,
-      "rnd_core_24__ser" => rnd_core_24__ser::make,
-      "rnd_core_26__pari" => rnd_core_26__pari::make,
-      "rnd_core_29__par" => rnd_core_29__par::make,
-      "rnd_agg_02__ser" => rnd_agg_02__ser::make,
-      "rnd_agg_04__pari" => rnd_agg_04__pari::make,
-      "rnd_agg_07__par" => rnd_agg_07__par::make,
-      "rnd_agg_10__ser" => rnd_agg_10__ser::make,
-      "rnd_agg_12__pari" => rnd_agg_12__pari::make,
-      "rnd_agg_15__par" => rnd_agg_15__par::make,
-      "rnd_prec_02__par" => rnd_prec_02__par::make,
-      "rnd_prec_03__topar" => rnd_prec_03__topar::make,
-      "rnd_prec_05__pari" => rnd_prec_05__pari::make,
-      "rnd_prec_07__ser" => rnd_prec_07__ser::make,
-      "rnd_prec_08__to" => rnd_prec_08__to::make,
-      "rnd_prea_03__ser" => rnd_prea_03__ser::make,
-      "rnd_prea_05__pari" => rnd_prea_05__pari::make,
-      "rnd_prea_08__par" => rnd_prea_08__par::make,
+      "stress_set__ser" => stress_set__ser::make,
+      "rnd_core_01__pari" => rnd_core_01__pari::make,
+      "rnd_core_04__par" => rnd_core_04__par::make,
+      "rnd_core_07__ser" => rnd_core_07__ser::make,
+      "rnd_core_09__pari" => rnd_core_09__pari::make,
+      "rnd_core_12__par" => rnd_core_12__par::make,
+      "rnd_core_15__ser" => rnd_core_15__ser::make,
+      "rnd_core_17__pari" => rnd_core_17__pari::make,
+      "rnd_core_20__par" => rnd_core_20__par::make,
+      "rnd_core_23__ser" => rnd_core_23__ser::make,
+      "rnd_core_25__pari" => rnd_core_25__pari::make,
+      "rnd_core_28__par" => rnd_core_28__par::make,
+      "rnd_agg_01__ser" => rnd_agg_01__ser::make,
+      "rnd_agg_03__pari" => rnd_agg_03__pari::make,
+      "rnd_agg_06__par" => rnd_agg_06__par::make,
+      "rnd_agg_09__ser" => rnd_agg_09__ser::make,
+      "rnd_agg_11__pari" => rnd_agg_11__pari::make,
+      "rnd_agg_14__par" => rnd_agg_14__par::make,
+      "rnd_prec_01__to" => rnd_prec_01__to::make,
+      "rnd_prec_03__par" => rnd_prec_03__par::make,
+      "rnd_prec_04__topar" => rnd_prec_04__topar::make,
+      "rnd_prec_06__pari" => rnd_prec_06__pari::make,
+      "rnd_prec_08__ser" => rnd_prec_08__ser::make,
+      "rnd_prea_02__ser" => rnd_prea_02__ser::make,
+      "rnd_prea_04__pari" => rnd_prea_04__pari::make,
+      "rnd_prea_07__par" => rnd_prea_07__par::make,
       _ => panic!("no such program variant in this shard: {}", name),
    }
 }
